@@ -57,8 +57,10 @@ def history_case(draw, max_steps=40000):
 
 
 def excluded_shape(c):
+    """a severe bottleneck followed by a large final expansion: the one region where dadi's accuracy at a tenth of the default step
+    falls (slightly) short of the 1.5% the property states - listed in known_findings.json as C01-bottleneck-expansion-accuracy"""
     nus = c['nus']
-    return len(nus) >= 2 and c['n'] >= 27 and nus[-1] >= 8 and any(v <= 0.15 for v in nus[:-1])
+    return len(nus) >= 2 and nus[-1] >= 8 and any(v <= 0.15 for v in nus[:-1])
 
 
 def model_func(c):
@@ -92,8 +94,9 @@ def run_model(c, pts_l, tau):
 def r1(c, rec):
     """Neutral piecewise-constant histories: every polymorphic entry within 1.5% of the exact coalescent expectation at a tenth of
     the default time step on refined grids, and refinement does not make things worse."""
-    if excluded_shape(c):
-        rec.label('excluded-region (bottleneck then large final expansion, n>=27)')
+    shape = excluded_shape(c)
+    if shape and rec.known(finding='bottleneck-expansion-accuracy'):
+        rec.label('known finding: bottleneck then large final expansion (excluded, counted)')
         raise Reject()
     n = c['n']
     bf = 4 * c['beta'] / (c['beta'] + 1) ** 2
@@ -110,7 +113,8 @@ def r1(c, rec):
     rec.err('coalescent rel err (tau0/10, refined grids)', err_fine)
     require(np.isfinite(fine[inner]).all(), 'non-finite spectrum')
     require(err_fine <= 0.015, 'worst polymorphic entry is %.3f%% from the exact coalescent expectation at a tenth of the default time '
-            'step (grids %s): nus=%r Ts=%r n=%d' % (100 * err_fine, [gp, gp + 10, gp + 20], c['nus'], c['Ts'], n))
+            'step (grids %s): nus=%r Ts=%r n=%d' % (100 * err_fine, [gp, gp + 10, gp + 20], c['nus'], c['Ts'], n),
+            **(dict(finding='bottleneck-expansion-accuracy') if shape else {}))
     coarse, _ = run_model(c, [g, g + 10, g + 20], TAU0)
     err_coarse = np.abs(coarse[inner] / exact[inner] - 1).max()
     rec.err('coalescent rel err (default step, user grids)', err_coarse)
